@@ -286,7 +286,8 @@ impl<'a> LfnBuffer<'a> {
         //
         // We cache the decoded chars into this array so we can iterate them
         // backwards. It's 60 bytes, but it'll have to do.
-        let mut char_vec: heapless::Vec<char, 13> = heapless::Vec::new();
+        // (13 code units from this chunk, plus the carried-over surrogate)
+        let mut char_vec: heapless::Vec<char, 14> = heapless::Vec::new();
         // Now do the decode, including the unpaired surrogate (if any) from
         // last time (maybe it has a pair now!)
         let mut is_first = true;
